@@ -298,7 +298,7 @@ def _plan_from_desc(world, plan):
     if d.get('fstypes_rel') and not plan.get('fstypes'):
         plan['fstypes'] = dict((world.abs(m), t) for m, t in
                                d['fstypes_rel'].items())
-    for k in ('umask', 'listdir_seed', 'euid'):
+    for k in ('umask', 'listdir_seed', 'euid', 'short_io'):
         # listdir_seed: readdir order of this world; euid: the effective uid
         # differs from the real one (set-uid wrapper)
         if d.get(k) is not None and plan.get(k) is None:
